@@ -5,6 +5,7 @@ import numpy as np
 from .. import core, gen
 
 ID = 'C03'
+FOUNDATIONS = ['harness.foundation.cscalar']   # ties of the C++ helper functions the model rests on (generated from their text)
 LEVEL = 'proof'
 RULE = ('corpus; exhaustive scope: all 65536 boolean 4x4 images x {4,8}-neighbourhoods, all boolean images of the '
         'smaller shapes up to 4x4, all 512 3x3 elements x all boolean images up to 3x3 (thorough in full, quick a '
